@@ -11,7 +11,9 @@ META = {
         "size for Variable), raises MessageSerializationError exactly when unset without default filling, never rewrites bytes "
         "already in the buffer. The BufferWriter / SerializablePrimitive / Struct code underneath is the real code, inlined. "
         "UDPMessageDeserializer._parse_message_header (not zero-coded): flags, id, offset, acks in order, body with the ack trailer "
-        "snipped (contract shared with C02). Block framing, both directions, as ghost call-log obligations on the real loops: "
+        "snipped (contract shared with C02); zero-coded datagram: the same header fields, and the window handed to the expander to find "
+        "the message name covers what is read from its expansion - at most 4 bytes of message number plus the extra field, at most two "
+        "encoded bytes each (C03) - or all that is left of the datagram. Block framing, both directions, as ghost call-log obligations on the real loops: "
         "_serialize_block writes the count byte exactly for Variable blocks and equal to the number of instances (more than 255 is "
         "rejected by the U8 write, not truncated), rejects a Multiple block of the wrong length, and writes every template variable of "
         "every instance exactly once with that instance's value and fill flag; serialize (body built from blocks) looks every template "
@@ -37,6 +39,7 @@ def register(reg):
     udp_common.reg_serialize_var(reg, PID)
     udp_common.reg_parse_header(reg, "C02")
     reg.fns["hippolyzer.lib.base.message.udpdeserializer:UDPMessageDeserializer._parse_message_header@plain"].also.append(PID)
+    reg.fns["hippolyzer.lib.base.message.udpdeserializer:UDPMessageDeserializer._parse_message_header@zerocoded"].also.append(PID)
     from contracts import c01b_contracts
     c01b_contracts.register_p2(reg, PID)
     from contracts import c01c_contracts
